@@ -4,6 +4,7 @@ import Proofs.DeltaFlat
 import Proofs.DeltaList
 import Proofs.DeltaNested
 import Proofs.DeltaOpcodes
+import Proofs.DeltaSet
 import Properties.C02
 /-!
 # C01 — applying `Delta(DeepDiff(t1, t2))` to `t1` reproduces `t2`
@@ -288,5 +289,27 @@ example : let xs : List PyVal := [.int 1, .int 2, .int 3, .int 4]
   · intro o ho
     simp [ops] at ho
     rcases ho with rfl | rfl | rfl | rfl <;> simp
+
+/-! ### sets of scalars, end to end -/
+
+/-- **Round trip for every pair of sets** whose members are told apart consistently: no two different members are `==`
+(`1` next to `True` is finding F45) and the item hash is injective on them (C07).  `t1 + Delta(DeepDiff(t1, t2))` is a set
+`== t2` — union with the added members, then difference with the removed ones — for every configuration without path
+restrictions, plain or bidirectional. -/
+theorem C01_set_roundtrip (cfg : DCfg) (hp : Diff.Plain cfg) (al : Align) (hashOf : PyVal → String) (bidir directed always : Bool)
+    (xs ys : List PyVal) (h : SetDom hashOf xs ys) :
+    ∃ r, applyDelta bidir (buildDelta directed always (.set xs) (.set ys) (deepDiff cfg al hashOf (.set xs) (.set ys))) (.set xs) = { root := .set r } ∧
+      pyEq (.set r) (.set ys) = true :=
+  (set_roundtrip cfg hp al hashOf bidir directed always xs ys h).1
+
+/-- the hypotheses are met by two overlapping sets of strings under a hash that is injective on strings -/
+example : SetDom (fun v => match v with | .str s => s | _ => "") [.str "a", .str "b"] [.str "b", .str "c"] := by
+  refine ⟨by simp, by simp, ?_, ?_⟩
+  · intro a ha b hb
+    simp at ha hb
+    rcases ha with rfl | rfl | rfl | rfl <;> rcases hb with rfl | rfl | rfl | rfl <;> simp
+  · intro a ha b hb
+    simp at ha hb
+    rcases ha with rfl | rfl | rfl | rfl <;> rcases hb with rfl | rfl | rfl | rfl <;> simp [keyEq]
 
 end Delta
